@@ -103,6 +103,8 @@ def o1_decoder(chk, prog, which, n):
                    'unwinding bound in Ok / Err / an unwinding panic of the sender\'s task; it never reaches process exit or abort, and whatever it '
                    're-encodes for the server is well-framed (length field = bytes that follow)' % (which, n), {'decoder': which, 'body_bytes': n, 'length_field': 'consistent (read_message invariant)'})
     ip = chk.interp(prog, name)
+    # hostile bytes: the strings of a message may contain bytes that are not UTF-8 (message codecs; the router entry points keep the ASCII assumption)
+    ip.lossy_invalid = which in ('Parse', 'Bind', 'Describe', 'Close', 'Bind::rename', 'Bind::get_name', 'Parse::get_name')
     install_stats_noops(ip)
     code = {'Parse': 'P', 'Bind': 'B', 'Describe': 'D', 'Close': 'C', 'Bind::rename': 'B', 'Bind::get_name': 'B', 'Parse::get_name': 'P',
             'infer_shard_from_bind': 'B', 'try_execute_command': None, 'QueryRouter::parse': None}[which]
